@@ -566,7 +566,14 @@ def run(tier, seed):
     for r in (res, resE, resU):
         for case, why in r['oracle_fail'][:8]:
             findings.add(case[0], repr(case[1:]), why)
+    # how much of the loading code do the inputs execute (a measurement, not a verdict)
+    coverage_lines = lib.modelled_code_coverage([('css_parser.util', '_readUrl'), ('css_parser.util', 'urljoin'),
+                                                 ('css_parser.css.cssimportrule', 'CSSImportRule._setHref'), ('css_parser', 'resolveImports')],
+                                                [lambda c=c: oracle(c) for c in (lcases[::max(1, len(lcases) // 300)] + ecases[::max(1, len(ecases) // 200)])] +
+                                                [lambda c=c: url_py(c) for c in ucases[::max(1, len(ucases) // 300)]] +
+                                                [lambda c=c: c20r.py_of(c) for c in vcases[::max(1, len(vcases) // 150)]], limit=1200)
     coverage = {
+        'modelled_code_line_coverage': coverage_lines,
         'evaluations': res['n'] + resE['n'] + resU['n'] + resO['n'] + resV['n'] + 1,
         'distinct_nontrivial': len(set(lcases)) + len(ecases) + len(set(ucases)) + len(fcases) + len(set(vcases)),
         'rule': 'load: sheets with 1-3 imports over 6 href forms (relative, dot segments, absolute path, absolute URL) x '
